@@ -47,6 +47,10 @@ CLAIMED['C10'] = ('exploration', 'deterministic simulation: seeded attribute dat
     'Seeded search over generated databases (services, includes, characteristics with every property mix, descriptors, 16/128-bit UUIDs, values 0..512 bytes, static and sync/async callback values, several permission masks), server MTU, one MTU exchange at an arbitrary point, and programs of raw ATT PDUs over all opcodes with valid and invalid handles, inverted ranges, empty and over-long handle sets, offsets past the end, commands, spurious confirmations, undefined opcodes, plus notify/indicate calls with delayed confirmations. Oracle: exactly one response per request (the matching opcode or an Error Response naming it), nothing for commands / confirmations / unknown non-requests, every server PDU <= the bearer ATT_MTU, at most one indication awaiting confirmation per bearer. Sampling, not proof.',
     'Trusted: the raw client obeys ATT (one request at a time, PDUs within ATT_MTU, well-formed layouts for defined opcodes - malformed ones are C17); unencrypted link.', 'DESIGN.md §5 C10')
 
+CLAIMED['C11'] = ('exploration', 'deterministic simulation: seeded permission masks x link security phases (changed by real pairing) x every reading/writing ATT operation, canary values',
+    'Seeded search: generated characteristics and descriptors each carry a unique canary and a permission mask drawn from all 256 combinations; the link goes plain -> Just-Works (encrypted) -> passkey (authenticated) -> reconnect by real SMP pairing; in every phase every read path (read, read blob, read by type, read by group type, read multiple, read multiple variable, find by type value with the exact value) and write path (write request, write command) is aimed at every attribute on the fixed or an enhanced bearer. Oracle from the property text: no server PDU carries the canary of an attribute that is not readable in that phase, no refused write changes the server-side value, a refused single-handle access is answered with an error matching a requirement that really failed. Sampling, not proof.',
+    'Trusted: ground truth of authenticated = association model configured by the harness; authorisation requirements are never satisfiable; under-granting is not judged. Two genuine defects are open known findings (READABLE/WRITEABLE never enforced; LE encryption implies authenticated), 18 signatures.', 'DESIGN.md §5 C11')
+
 NOT_YET = {}
 
 
